@@ -62,11 +62,12 @@ def r08_1(ctx: Ctx) -> None:
     # a loop over the variable of an enclosing loop visits what that loop ranges over
     from ..flow import fact_texts, inline_reaching
 
+    from ..loopview import is_area_lookup, iteration_sources
+    loop_filters: Dict[int, list] = {}
+
     def covered(loop: ast.For) -> List[str]:
-        resolved = [inline_reaching(cfg, loop, loop.iter)]
-        if isinstance(resolved[0], ast.Name):
-            # a list assembled before the loop (bound once, then appended to)
-            resolved += bound_from(func, resolved[0].id)
+        resolved, filters = iteration_sources(func, cfg, loop)
+        loop_filters[id(loop)] = filters
         names = [dotted(n)[5:] for expr in resolved for n in ast.walk(expr) if isinstance(n, ast.Attribute) and dotted(n)
                  and dotted(n).startswith("self.") and dotted(n)[5:] in lists]
         return sorted(set(names))
@@ -85,7 +86,8 @@ def r08_1(ctx: Ctx) -> None:
         adds = [c for c in calls(loop) if txt(c.func) == f"{var}.add_cds" and c.args and txt(c.args[0]) == gene]
         ok = bool(adds)
         if ok:
-            ok = f"{gene}.is_contained_by({var})" in fact_texts(cfg, adds[0])
+            ok = f"{gene}.is_contained_by({var})" in fact_texts(cfg, adds[0]) or \
+                any(txt(cond) == f"{gene}.is_contained_by({name_})" for name_, cond in loop_filters.get(id(loop), []))
         ctx.ob("R08.1", REC, loop, qual, f"link into {name}", ok,
                "the gene is added to each collection of the list that contains it", form=f"for {var} in {txt(loop.iter)}")
         # on every path through the function
@@ -113,11 +115,10 @@ def r08_1(ctx: Ctx) -> None:
             continue
         f = ctx.fn(REC, f"Record.{adder}")
         area = f.args.args[1].arg
-        loops = [n for n in walk_local(f) if isinstance(n, ast.For)
-                 and txt(n.iter) == f"self.get_cds_features_within_location({area}.location)"]
+        g = CFG(f)
+        loops = [n for n in walk_local(f) if isinstance(n, ast.For) and is_area_lookup(f, g, n.iter, area)]
         ok = bool(loops) and any(txt(c.func) == f"{area}.add_cds" and txt(c.args[0]) == txt(loops[0].target) for c in calls(loops[0]))
         if ok and not guards(loops[0], stop=f):
-            g = CFG(f)
             ok = g.postdominates(g.n(loops[0]), g.entry)
         ctx.ob("R08.1", REC, f, f"Record.{adder}", "area links contained genes", ok,
                "an area added after the genes receives every gene within its location (default lookup: contained only)",
@@ -328,7 +329,7 @@ def r08_6(ctx: Ctx) -> None:
     qual = "Record.get_cds_features_within_location"
     func = ctx.fn(REC, qual)
     cfg = CFG(func)
-    scans = [n for n in walk_local(func) if isinstance(n, ast.While) and any(isinstance(b, ast.Break) for b in walk_local(n))]
+    scans = [n for n in walk_local(func) if isinstance(n, (ast.While, ast.For)) and any(isinstance(b, ast.Break) for b in walk_local(n))]
     count = 0
     for loop in scans:
         for brk in [b for b in walk_local(loop) if isinstance(b, ast.Break)]:
@@ -374,10 +375,21 @@ def r08_5(ctx: Ctx) -> None:
     count = 0
     for loop in [n for n in walk_local(func) if isinstance(n, ast.For)]:
         source = inline_reaching(cfg, loop, loop.iter)
-        if isinstance(source, ast.Name):
-            values = bound_from(func, source.id)
-            if len(values) == 1:
+        loop_iter_name = loop.iter
+        for _ in range(4):
+            if isinstance(source, ast.Name):
+                values = bound_from(func, source.id)
+                if len(values) != 1:
+                    break
                 source = values[0]
+            elif isinstance(source, (ast.ListComp, ast.GeneratorExp)) and len(source.generators) == 1 \
+                    and txt(source.elt) == txt(source.generators[0].target):
+                # a filtering comprehension offers the elements of what it walks
+                source = source.generators[0].iter
+                if isinstance(source, ast.Name):
+                    loop_iter_name = source
+            else:
+                break
         windows = [n for n in ast.walk(source) if isinstance(n, ast.Subscript) and isinstance(n.slice, ast.Slice)
                    and dotted(n.value) and dotted(n.value).startswith("self.") and dotted(n.value)[5:] in lists
                    and (n.slice.lower is not None or n.slice.upper is not None)]
@@ -391,15 +403,15 @@ def r08_5(ctx: Ctx) -> None:
             text = txt(source)
             # the iterated list itself may be completed by statements before the loop (append / insert of lst[0])
             extra = ""
-            if isinstance(loop.iter, ast.Name):
+            if isinstance(loop_iter_name, ast.Name):
                 for call in calls(func):
-                    if isinstance(call.func, ast.Attribute) and txt(call.func.value) == loop.iter.id \
+                    if isinstance(call.func, ast.Attribute) and txt(call.func.value) == loop_iter_name.id \
                             and call.func.attr in ("append", "insert", "extend") and cfg.dominates(cfg.n(call), cfg.n(loop)) is not None \
                             and cfg.exists_path(cfg.n(call), cfg.n(loop)):
                         extra += " " + txt(call)
             resolved_extra = extra
             for call in calls(func):
-                if isinstance(call.func, ast.Attribute) and isinstance(loop.iter, ast.Name) and txt(call.func.value) == loop.iter.id \
+                if isinstance(call.func, ast.Attribute) and isinstance(loop_iter_name, ast.Name) and txt(call.func.value) == loop_iter_name.id \
                         and call.func.attr in ("append", "insert", "extend") and call.args:
                     resolved_extra += " " + txt(inline_reaching(cfg, call, call.args[-1]))
             first_included = any(f"{lst}{idx}" in text + extra + resolved_extra for idx in ("[:1]", "[0]", "[0:1]"))
